@@ -74,7 +74,11 @@ class QuaMap(Map[QuaNoteList, QuaHitList, QuaHoldList, QuaBpmList], QuaMapMeta):
         """Writes a .qua, returns the .qua string"""
         file = self._write_meta()
 
-        file["TimingPoints"] = self.bpms.to_yaml()
+        # In time order: StartTime is written in whole ms, of 2 timing points that
+        # fall on the same ms the one listed later is the one in force.
+        file["TimingPoints"] = QuaBpmList(
+            self.bpms.df.sort_values("offset", kind="stable")
+        ).to_yaml()
         file["SliderVelocities"] = self.svs.to_yaml()
         file["HitObjects"] = [*self.hits.to_yaml(), *self.holds.to_yaml()]
 
